@@ -890,7 +890,24 @@ def _to_c_expr(
                 return _fold([emit(arg) for arg in n.args])
             if n.keywords:
                 raise ValueError("unsupported keyword arguments in call")
-            args_rendered = ", ".join(emit(arg) for arg in n.args)
+            # Record the call signature wherever the call appears (not only on the
+            # right-hand side of an assignment) so that a helper variant with the
+            # matching parameter types is generated.
+            _infer_arg_type(n)
+            rendered_args: List[str] = []
+            for arg in n.args:
+                arg_text = emit(arg)
+                # Helpers are emitted once per argument-type signature; make the
+                # argument type explicit so that C++ overload resolution picks the
+                # variant Python semantics require (a bare 2.5 is a double and a
+                # bare "text" prefers the bool overload).
+                arg_label = _infer_arg_type(arg)
+                if arg_label == "float":
+                    arg_text = f"static_cast<float>({arg_text})"
+                elif arg_label == "String" and not arg_text.startswith("String("):
+                    arg_text = f"String({arg_text})"
+                rendered_args.append(arg_text)
+            args_rendered = ", ".join(rendered_args)
             return f"{fname}({args_rendered})"
 
         raise ValueError("unsupported")
